@@ -175,7 +175,11 @@ Section Rules.
 
     Definition param_path_type (loopvars : list name) (v : name) (es : list pelem) : option vtype :=
       match var_type v with
-      | Some t => match es with [] => None | _ => path_type loopvars t es end
+      | Some t =>
+        match es with
+        | PF _ :: _ => path_type loopvars t es      (* attribute_access: variable "." field … *)
+        | _ => None
+        end
       | None => None
       end.
 
